@@ -82,6 +82,11 @@ def install():
                 rec["s"] = _pop_vec(samples)
                 rec["dtype"] = str(to_np(samples.log_likelihood).dtype)
             r.beta_calls.append(rec)
+            if rec["beta_new"] > 1.0:
+                # a temperature beyond 1 is a violation witness by itself (and such a schedule never meets its exit test)
+                r.stall = {"beta_prev": rec["beta_prev"], "beta_new": rec["beta_new"], "iteration": len(r.beta_calls), "overshoot": True}
+                if r.abort_on_stall:
+                    raise StallDetected(f"beta above one: {rec['beta_prev']!r} -> {rec['beta_new']!r}")
             if not (rec["beta_new"] > rec["beta_prev"]) and rec["beta_prev"] < 1.0:
                 r.stall = {"beta_prev": rec["beta_prev"], "beta_new": rec["beta_new"], "iteration": len(r.beta_calls)}
                 if r.abort_on_stall:
